@@ -207,7 +207,8 @@ def in_memory_lookups(rng, workdir, rec, k):
                 h.op_sync()                 # sync of a store that is not on disk yet
                 rec.cls('in-memory:sync-before-save')
             h.op_save()
-            h.op_add()
+            if rng.random() < 0.5:
+                h.op_add()              # (an addition marks the index stale again)
             h.op_lookup(known=True)
             h.op_lookup(known=False)
             rec.cls('in-memory:saved-then-lookup')
